@@ -1,182 +1,10 @@
-(** Executable model of src/time_delta.rs (everything except the f32/f64 accessors), in the
-    trapping-integer monad of Base.Int.  Mirrors the Rust line by line; constants come from
-    Gen/TimeDelta.v (regenerated from the source on every run).  No proofs here. *)
+(** C06 dispatcher: the model itself is Model/TimeDelta.v (shared with the properties that use
+    durations); this file only maps case lines to model calls.  No proofs here. *)
 From Coq Require Import ZArith List Bool String.
 From V Require Import Base.Int Base.IO Gen.TimeDelta.
+From V Require Export Model.TimeDelta.
 Import ListNotations.
 Open Scope Z_scope.
-
-Record td := mk_td { secs : Z; nanos : Z }.
-
-Definition NPS := TD_NANOS_PER_SEC.
-
-(* pub const fn new(secs: i64, nanos: u32) -> Option<TimeDelta> *)
-Definition td_new (s n : Z) : option td :=
-  if (s <? TD_MIN_secs) || (s >? TD_MAX_secs) || (n >=? TD_NEW_NANOS_BOUND)
-     || ((s =? TD_MAX_secs) && (n >? as_u32 TD_MAX_nanos))
-     || ((s =? TD_MIN_secs) && (n <? as_u32 TD_MIN_nanos))
-  then None else Some (mk_td s (as_i32 n)).
-
-Definition div_mod_floor_64 (a b : Z) : R (Z * Z) :=
-  let* q := div_euclid in_i64 a b in
-  let* r := rem_euclid in_i64 a b in Val (q, r).
-
-Definition try_seconds (s : Z) : option td := td_new s 0.
-Definition try_unit (per : Z) (n : Z) : option td :=
-  match checked_mul in_i64 n per with Some s => try_seconds s | None => None end.
-Definition try_weeks := try_unit TD_SECS_PER_WEEK.
-Definition try_days := try_unit TD_SECS_PER_DAY.
-Definition try_hours := try_unit TD_SECS_PER_HOUR.
-Definition try_minutes := try_unit TD_SECS_PER_MINUTE.
-
-Definition try_milliseconds (ms : Z) : R (option td) :=
-  if ms <? - i64_max then Val None else
-  let* '(s, millis) := div_mod_floor_64 ms TD_MILLIS_PER_SEC in
-  let* n := mul_i32 (as_i32 millis) TD_NANOS_PER_MILLI in
-  Val (Some (mk_td s n)).
-
-Definition microseconds (us : Z) : R td :=
-  let* '(s, micros) := div_mod_floor_64 us TD_MICROS_PER_SEC in
-  let* n := mul_i32 (as_i32 micros) TD_NANOS_PER_MICRO in
-  Val (mk_td s n).
-
-Definition nanoseconds (ns : Z) : R td :=
-  let* '(s, n) := div_mod_floor_64 ns (as_i64 NPS) in
-  Val (mk_td s (as_i32 n)).
-
-Definition num_seconds (d : td) : R Z :=
-  if (secs d <? 0) && (nanos d >? 0) then add_i64 (secs d) 1 else Val (secs d).
-Definition subsec_nanos (d : td) : R Z :=
-  if (secs d <? 0) && (nanos d >? 0) then sub_i32 (nanos d) NPS else Val (nanos d).
-Definition num_minutes d := let* s := num_seconds d in div_i64 s TD_SECS_PER_MINUTE.
-Definition num_hours d := let* s := num_seconds d in div_i64 s TD_SECS_PER_HOUR.
-Definition num_days d := let* s := num_seconds d in div_i64 s TD_SECS_PER_DAY.
-Definition num_weeks d := let* s := num_days d in div_i64 s 7.
-Definition subsec_millis d := let* n := subsec_nanos d in div_i32 n TD_NANOS_PER_MILLI.
-Definition subsec_micros d := let* n := subsec_nanos d in div_i32 n TD_NANOS_PER_MICRO.
-Definition num_milliseconds (d : td) : R Z :=
-  let* s := num_seconds d in
-  let* secs_part := mul_i64 s TD_MILLIS_PER_SEC in
-  let* sn := subsec_nanos d in
-  let* nanos_part := div_i32 sn TD_NANOS_PER_MILLI in
-  add_i64 secs_part nanos_part.
-Definition num_microseconds (d : td) : R (option Z) :=
-  let* s := num_seconds d in
-  match checked_mul in_i64 s TD_MICROS_PER_SEC with
-  | None => Val None
-  | Some secs_part =>
-    let* sn := subsec_nanos d in
-    let* nanos_part := div_i32 sn TD_NANOS_PER_MICRO in
-    Val (checked_add in_i64 secs_part nanos_part)
-  end.
-Definition num_nanoseconds (d : td) : R (option Z) :=
-  let* s := num_seconds d in
-  match checked_mul in_i64 s (as_i64 NPS) with
-  | None => Val None
-  | Some secs_part =>
-    let* nanos_part := subsec_nanos d in
-    Val (checked_add in_i64 secs_part nanos_part)
-  end.
-Definition is_zero (d : td) : bool := (secs d =? 0) && (nanos d =? 0).
-
-Definition td_checked_add (a b : td) : R (option td) :=
-  let* s := add_i64 (secs a) (secs b) in
-  let* n := add_i32 (nanos a) (nanos b) in
-  if n >=? NPS then
-    let* n' := sub_i32 n NPS in let* s' := add_i64 s 1 in Val (td_new s' (as_u32 n'))
-  else Val (td_new s (as_u32 n)).
-
-Definition td_checked_sub (a b : td) : R (option td) :=
-  let* s := sub_i64 (secs a) (secs b) in
-  let* n := sub_i32 (nanos a) (nanos b) in
-  if n <? 0 then
-    let* n' := add_i32 n NPS in let* s' := sub_i64 s 1 in Val (td_new s' (as_u32 n'))
-  else Val (td_new s (as_u32 n)).
-
-Definition td_checked_mul (a : td) (rhs : Z) : R (option td) :=
-  let* total_nanos := mul_i64 (nanos a) rhs in
-  let* '(extra_secs, n) := div_mod_floor_64 total_nanos (as_i64 NPS) in
-  let* p := mul_i128 (secs a) rhs in
-  let* s := add_i128 p extra_secs in
-  if (s <=? i64_min) || (s >=? i64_max) then Val None
-  else Val (td_new (as_i64 s) (as_u32 n)).
-
-Definition td_checked_div (a : td) (rhs : Z) : R (option td) :=
-  if rhs =? 0 then Val None else
-  let* s := div_i64 (secs a) rhs in
-  let* carry := rem_i64 (secs a) rhs in
-  let* cn := mul_i64 carry (as_i64 NPS) in
-  let* extra_nanos := div_i64 cn rhs in
-  let* q := div_i32 (nanos a) rhs in
-  let* n := add_i32 q (as_i32 extra_nanos) in
-  if n <? 0 then
-    let* s' := sub_i64 s 1 in let* n' := add_i32 n NPS in Val (Some (mk_td s' n'))
-  else if n >=? NPS then
-    let* s' := add_i64 s 1 in let* n' := sub_i32 n NPS in Val (Some (mk_td s' n'))
-  else Val (Some (mk_td s n)).
-
-Definition td_abs (a : td) : R td :=
-  if (secs a <? 0) && negb (nanos a =? 0) then
-    let* s1 := add_i64 (secs a) 1 in let* s := abs_i64 s1 in
-    let* n := sub_i32 NPS (nanos a) in Val (mk_td s n)
-  else let* s := abs_i64 (secs a) in Val (mk_td s (nanos a)).
-
-Definition td_neg (a : td) : R td :=
-  if nanos a =? 0 then let* s := neg_i64 (secs a) in let* s' := sub_i64 s 0 in Val (mk_td s' 0)
-  else let* n := sub_i32 NPS (nanos a) in
-       let* s := neg_i64 (secs a) in let* s' := sub_i64 s 1 in Val (mk_td s' n).
-
-Definition td_cmp (a b : td) : Z := cmp_lex [secs a; nanos a] [secs b; nanos b].
-
-(* from_std(duration): as_secs : u64, subsec_nanos : u32 (< 10^9 by Duration's invariant) *)
-Definition from_std (dsecs dnanos : Z) : option td :=
-  if dsecs >? as_u64 TD_MAX_secs then None else td_new (as_i64 dsecs) dnanos.
-Definition to_std (a : td) : option (Z * Z) :=
-  if secs a <? 0 then None else Some (as_u64 (secs a), as_u32 (nanos a)).
-
-Definition op_add a b := unwrap_r (td_checked_add a b).
-Definition op_sub a b := unwrap_r (td_checked_sub a b).
-Definition op_mul a k := unwrap_r (td_checked_mul a k).
-Definition op_div a k := unwrap_r (td_checked_div a k).
-Fixpoint td_sum (l : list td) (acc : td) : R td :=
-  match l with [] => Val acc | x :: r => let* acc' := op_add acc x in td_sum r acc' end.
-
-(** Display.  [core::fmt] integer formatting is modelled: [{}] prints the decimal of an i64,
-    [{:0w$}] left-pads with zeros to width w. *)
-Fixpoint strip_loop (fuel : nat) (digits figures : Z) : R (Z * Z) :=
-  match fuel with
-  | O => OutOfFuel
-  | S f =>
-    let* dv := div_i32 digits 10 in
-    let* last := rem_i32 digits 10 in
-    if negb (last =? 0) then Val (digits, figures)
-    else let* fg := sub_usize figures 1 in strip_loop f dv fg
-  end.
-Definition pad0 (w : Z) (s : bytes) : bytes :=
-  repeat 48 (Z.to_nat (w - Z.of_nat (List.length s))) ++ s.
-Definition td_display (a : td) : R bytes :=
-  let* '(ab, sign) := (if secs a <? 0 then let* n := td_neg a in Val (n, B"-") else Val (a, [])) in
-  let head := sign ++ B"P" in
-  if (secs ab =? 0) && (nanos ab =? 0) then Val (head ++ B"0D") else
-  let body := head ++ B"T" ++ dec_of_Z (secs ab) in
-  if nanos ab >? 0 then
-    let* '(fd, fg) := strip_loop 10 (nanos ab) 9 in
-    Val (body ++ B"." ++ pad0 fg (dec_of_Z fd) ++ B"S")
-  else Val (body ++ B"S").
-
-(** ** Dispatcher for the case protocol *)
-Definition enc_td (d : td) : val := VTup [VInt (secs d); VInt (nanos d)].
-(* inputs are decoded exactly as the harness does: through [TimeDelta::new] on (i64, u32) *)
-Definition dec_td (v : val) : option td :=
-  match v with
-  | VTup [VInt s; VInt n] => if in_i64 s && in_u32 n then td_new s n else None
-  | _ => None
-  end.
-Definition vo_td (o : option td) : val := val_of_option enc_td o.
-Definition arg_i64 (v : val) : option Z := match v with VInt z => if in_i64 z then Some z else None | _ => None end.
-Definition arg_i32 (v : val) : option Z := match v with VInt z => if in_i32 z then Some z else None | _ => None end.
-Definition arg_u32 (v : val) : option Z := match v with VInt z => if in_u32 z then Some z else None | _ => None end.
-Definition arg_u64 (v : val) : option Z := match v with VInt z => if in_u64 z then Some z else None | _ => None end.
 
 Definition td_acc (d : td) : R val :=
   let* w := num_weeks d in let* dd := num_days d in let* h := num_hours d in
